@@ -182,7 +182,7 @@ def main(argv):
     m, r, d = cd.run(lines)
     back = []
     for ln, want, ml, rl, dl in zip(lines, expect, m, r, d):
-        too_big = len(want) > 4080
+        too_big = len(want) > vf.constant("BUF_MAX_SIZE", 4080)
         c.count(ln[:200], nontrivial=len(want) > 140)
         for prof, o in (("release", rl), ("debug", dl)):
             if not codec.same(ml, o, cd.emap):
